@@ -322,11 +322,11 @@ var plainPred = "false"
 
 func modelPass1Chunk(trees []string, pairs [][2]string, outDir string, k int) ([]string, []bool, []int, error) {
 	var b strings.Builder
-	b.WriteString("From GC Require Import Base Model_Regex Model_RegexSimplify Proofs_RegexSimplify Proofs_RegexWalk Proofs_RegexWalkS Model_RegexText.\n")
+	b.WriteString("From GC Require Import Base Model_Regex Model_RegexSimplify Proofs_RegexSimplify Proofs_RegexWalk Proofs_RegexWalkS Model_RegexText Model_RegexParse.\n")
 	b.WriteString("Definition trees : list sx := [\n")
 	b.WriteString(strings.Join(trees, ";\n"))
 	b.WriteString("\n].\nDefinition R := Eval vm_compute in map (fun t => str_bytes (simplify1 t)) trees.\nPrint R.\n")
-	b.WriteString("Definition FRAG := Eval vm_compute in map (fun t => ((if " + plainPred + " then 1 else 0) + (if pass_ok t then 2 else 0))%N) trees.\nPrint FRAG.\nDefinition TT := Eval vm_compute in fold_left N.add (map text_tie_count trees) 0%N.\nPrint TT.\n")
+	b.WriteString("Definition FRAG := Eval vm_compute in map (fun t => ((if " + plainPred + " then 1 else 0) + (if pass_ok t then 2 else 0))%N) trees.\nPrint FRAG.\nDefinition TT := Eval vm_compute in fold_left N.add (map text_tie_count trees) 0%N.\nPrint TT.\nDefinition PT := Eval vm_compute in fold_left N.add (map (fun t => if N.eqb (parse_tie (print t) t) 1 then 1%N else 0%N) trees) 0%N.\nPrint PT.\n")
 	b.WriteString("Definition pairs : list (sx * sx) := [\n")
 	for i, pr := range pairs {
 		if i > 0 {
@@ -374,6 +374,12 @@ func modelPass1Chunk(trees []string, pairs [][2]string, outDir string, k int) ([
 	}
 	if len(frag) != len(trees) {
 		return nil, nil, nil, fmt.Errorf("round 1: %d fragment flags for %d trees", len(frag), len(trees))
+	}
+	if m := rePT.FindStringSubmatch(out); m != nil {
+		n, _ := strconv.Atoi(m[1])
+		textTieMu.Lock()
+		parseTieTrees += n
+		textTieMu.Unlock()
 	}
 	if m := reTT.FindStringSubmatch(out); m != nil {
 		n, _ := strconv.Atoi(m[1])
@@ -501,6 +507,8 @@ func modelFinal(ins [][3]string, outDir string) ([]int, error) {
 
 var (
 	reTT         = regexp.MustCompile(`TT = (\d+)`)
+	rePT         = regexp.MustCompile(`PT = (\d+)`)
+	parseTieTrees int
 	textTieMu    sync.Mutex
 	textTieNodes int
 )
@@ -1098,6 +1106,7 @@ func Run(tier string, seed int64, outDir string) *common.Meta {
 	meta := &common.Meta{Property: "C11", Distribution: map[string]interface{}{}, CaseFiles: []string{}}
 	thorough := tier == "thorough"
 	textTieNodes = 0
+	parseTieTrees = 0
 	plainPred = "false"
 	if thorough || os.Getenv("VERIF_C11_BEFORE") != "" {
 		plainPred = "in_fragment t && avoids_defects t"
@@ -1271,6 +1280,8 @@ func Run(tier string, seed int64, outDir string) *common.Meta {
 	}
 	meta.Distribution["patterns_covered_by_fragment_theorem"] = nFrag
 	meta.Distribution["class_nodes_and_literal_runs_reparsed_by_text_model"] = textTieNodes
+	meta.Distribution["pattern_trees_reproduced_by_the_parse_model_from_their_text"] = parseTieTrees
+	meta.Distribution["pattern_trees_total"] = len(round1)
 	meta.Distribution["rewrites_covered_by_fragment_theorem_pass1"] = nFragRw
 	if plainPred != "false" {
 		meta.Distribution["patterns_covered_by_the_earlier_capture_free_flag_free_theorem"] = nPlain
@@ -1329,7 +1340,7 @@ func Run(tier string, seed int64, outDir string) *common.Meta {
 
 	mark("coq_round1+round2")
 	// 4. simplifier cases
-	hdr := `From GC Require Import Base Model_Regex Model_RegexSimplify Proofs_RegexSimplify Proofs_RegexWalk Proofs_RegexWalkS Model_RegexText.
+	hdr := `From GC Require Import Base Model_Regex Model_RegexSimplify Proofs_RegexSimplify Proofs_RegexWalk Proofs_RegexWalkS Model_RegexText Model_RegexParse.
 Record case := { k_pat : string; k_tree : option sx; k_c1 : string; k_tree2 : option sx; k_obs : option string;
                  k_tree3 : option sx; k_cert : bool; k_frag : bool; k_fin : bool; k_call : string }.
 Definition ostr_eqb (a b : option string) : bool :=
@@ -1343,6 +1354,11 @@ Definition case_ok (k : case) : bool :=
       String.eqb (print t) (k_pat k)                                   (* the dump is the tree of this text *)
       && text_tie_ok t                   (* Model_RegexText reads every class / literal run of the tree back from its Value *)
       && match k_tree2 k with Some t2 => text_tie_ok t2 | None => true end
+      (* Model_RegexParse (whole patterns): lexing and parsing the text reproduces the dumped tree, for the pattern, the
+         first-pass text and the final rewrite *)
+      && negb (N.eqb (parse_tie (k_pat k) t) 2)
+      && match k_tree2 k with Some t2 => negb (N.eqb (parse_tie (k_c1 k) t2) 2) | None => true end
+      && match k_tree3 k, k_obs k with Some t3, Some rw => negb (N.eqb (parse_tie rw t3) 2) | _, _ => true end
       && String.eqb (simplify1 t) (k_c1 k)                              (* pass 1 as used for k_tree2 *)
       (* that the tree version of the walker prints the text version is a theorem: C11_walk_text_is_print_of_tree *)
       && ostr_eqb (simplify2 (k_pat k) t (fun s => if String.eqb s (k_c1 k) then k_tree2 k else None)) (k_obs k)
